@@ -18,6 +18,7 @@ RULE = ("cases = generator parameter sets from the documented domain (as C15; up
 
 
 _SEARCHES = [0]
+_CASES = [0]
 
 
 def model_plan(spec, acts, goal_directed=True):
@@ -91,7 +92,13 @@ def real_closure(h):
     state = env.current_state
     changed = True
     steps = 0
+    rounds = 0
     while changed and not env.goal_reached(state):
+        rounds += 1
+        if rounds > 4 * len(h.spec.addrs) + 20:
+            # a monotone closure needs at most one round per (host, access level); an environment whose state keeps
+            # changing without getting anywhere is not solved by it
+            break
         changed = False
         for i, a in enumerate(h.real_actions):
             if a.prob <= 0:
@@ -181,6 +188,13 @@ def run_source(source, rep, record=True):
             raise Failure("C16:exception", f"{type(e).__name__}: {e} at {where}",
                           bucket=f"C16:exception:{type(e).__name__}@{where}")
         spec = h.spec
+        _CASES[0] += 1
+        if _CASES[0] % 3 == 0:
+            # every third scenario has company: another environment (other layout) is created after it and kept alive
+            import nasim
+            h.foreign = sources.make_env(nasim.load_scenario(sources.shipped_path("small" if _CASES[0] % 2 else "tiny-small")))
+            if record:
+                rep.count("foreign-environment-alive")
         plan, st = model_plan(spec, h.acts)
         verdict = None
         if spec.goal(st):
@@ -236,6 +250,15 @@ def run_source(source, rep, record=True):
         failed.add(f.bucket)
         if record:
             rep.fail(f.bucket, f.detail, dict(source=source))
+    except Exception as e:
+        # the environment raised while the witness was replayed / searched for
+        inside, where = engine.from_nasim(sys.exc_info()[2])
+        if not inside:
+            raise
+        b = f"C16:exception:{type(e).__name__}@{where}"
+        failed.add(b)
+        if record:
+            rep.fail(b, f"{type(e).__name__}: {e} at {where} while the witness sequence was replayed on the real environment", dict(source=source))
     return failed
 
 
